@@ -249,8 +249,8 @@ def classify(steps, case):
 
 def run(ctx):
     maxlen = ctx.n(30, 60)
-    cases = [gen(ctx.rng, maxlen) for _ in range(ctx.n(4000, 100000))]
-    cases += [gen_plant(ctx.rng, maxlen) for _ in range(ctx.n(500, 10000))]
+    cases = [gen(ctx.rng, maxlen) for _ in range(ctx.n(12000, 100000))]
+    cases += [gen_plant(ctx.rng, maxlen) for _ in range(ctx.n(1500, 10000))]
     impl = []
     for c in cases:
         steps = run_impl(c)
